@@ -18,7 +18,7 @@ typedef struct {
     unsigned kinds;                      /* bitmask of source kinds (G_SRC) */
     unsigned srcflags;                   /* bitmask of source flag combinations offered: bit f = flags value f (1 AUTOCLOSE, 2 ONESHOT, 4 DUP, 8 AUTOFREE user data) */
     int keylimit;                        /* keys per source kind (0 = the whole menu) */
-    unsigned variants;                   /* 1: one-shot subscriptions; 2: context name/userdata ownership flags; 4: DUP path sources */
+    unsigned variants;                   /* 1: one-shot subscriptions; 2: context name/userdata ownership flags; 4: DUP path sources; 8: two tick periods */
 } profile_t;
 static profile_t P;
 
@@ -39,8 +39,8 @@ static int enabled_ops(op_t *o, int max) {
     int task_idle = 0; for (int s = 0; s < NM; s++) if (MD[s].present && MD[s].st == S_IDLE) for (int i = 0; i < MAXSRC; i++) if (MD[s].src[i].present && MD[s].src[i].kind == K_TASK) task_idle = 1;
     if ((CX.exists || (P.groups & G_CTX)) && !(task_idle && !CX.looping) && !(task_idle && CX.looping)) EMIT(O_DISPATCH);
     if ((P.groups & G_QUIT) && (CX.looping ? !CX.quit : (P.groups & G_ILLEGAL) != 0)) { EMIT(O_QUIT, 1); }
-    if ((P.groups & G_TICK) && CX.exists) EMIT(O_SET_TICK, !CX.tick);
-    if ((P.groups & G_CTXCALL)) for (int k = 0; k < 5; k++) EMIT(O_CTXCALL, k);
+    if ((P.groups & G_TICK) && CX.exists) { if (P.variants & 8) { for (int t = 0; t < 3; t++) if (t != CX.tick) EMIT(O_SET_TICK, t); } else EMIT(O_SET_TICK, !CX.tick); }      /* variants 8: two periods (4 ms, 12 ms), else on/off */
+    if ((P.groups & G_CTXCALL)) for (int k = 0; k < 6; k++) EMIT(O_CTXCALL, k);
     for (int s = 0; s < NMO; s++) {
         mod_t *m = &MD[s]; int have = handle(s) != NULL;
         if ((P.groups & G_REG) && (CX.exists || (P.groups & G_CTX)) && (!m->present ? (m->extra == 0) : (P.groups & G_ILLEGAL) != 0)) {
@@ -127,7 +127,7 @@ static int enabled_ops(op_t *o, int max) {
                 case A_UNBECOME: case A_BCAST: EMIT(O_ARM, s, cb * 32 + a, 0); break;
                 case A_RETAIN: if (cb == CB_EVT) EMIT(O_ARM, s, cb * 32 + a, 0); break;
                 case A_ERRNO: for (int k = 0; k < 4; k++) EMIT(O_ARM, s, cb * 32 + a, k); break;
-                case A_CTXCALL: for (int k = 0; k < 5; k++) EMIT(O_ARM, s, cb * 32 + a, k); EMIT(O_ARM, s, cb * 32 + A_QUIT, 1); break;
+                case A_CTXCALL: for (int k = 0; k < 6; k++) EMIT(O_ARM, s, cb * 32 + a, k); EMIT(O_ARM, s, cb * 32 + A_QUIT, 1); break;
                 }
             }
         }
@@ -157,7 +157,7 @@ static void fmt_op(op_t op, char *b, size_t cap) {
     case O_FINALIZE: snprintf(b, cap, "ctx_finalize"); break;
     case O_DISPATCH: snprintf(b, cap, "dispatch"); break;
     case O_QUIT: snprintf(b, cap, "quit(%d)", QCODE[op.a]); break;
-    case O_SET_TICK: snprintf(b, cap, "set_tick(%s)", op.a ? "4ms" : "0"); break;
+    case O_SET_TICK: snprintf(b, cap, "set_tick(%s)", op.a == 1 ? "4ms" : op.a == 2 ? "12ms" : "0"); break;
     case O_CTXCALL: snprintf(b, cap, "ctx_call#%d", op.a); break;
     case O_REG: snprintf(b, cap, "register(%s,%s,on_start=%s,%s)", A, evn[op.b >> 1], (op.b & 1) ? "true" : "false", MFLAGN[op.d]); break;
     case O_DEREG: snprintf(b, cap, "deregister(%s)", A); break;
@@ -292,7 +292,17 @@ static void tb_liveness(void) {
     }
 }
 static void run_probe(int i) {
-    if (i == 0) { drain(); check_quiescent_obligations(); tb_pressure(); tb_liveness(); drain(); teardown(); }
+    if (i == 0) { drain(); check_quiescent_obligations(); tb_pressure(); tb_liveness(); drain();
+        /* loop restart cycle when a module is PAUSED: what it had pending is discarded at loop end and must not show up in the next run */
+        int paused = 0; for (int s = 0; s < NM; s++) if (MD[s].present && MD[s].st == S_PAUSED) paused = 1;
+        if (paused && CX.exists && CX.looping && !(P.groups & G_BUCKET)) {
+            if (!CX.quit && n_running() > 0) do_api((op_t){O_QUIT, 0});
+            do_api((op_t){O_DISPATCH}); audit("probe: loop stop (restart cycle)");
+            if (CX.exists) { do_api((op_t){O_DISPATCH}); audit("probe: loop start (restart cycle)");
+                for (int s = 0; s < NM; s++) if (MD[s].present && MD[s].st == S_PAUSED && !ctx_hidden()) { do_api((op_t){O_RESUME, s}); audit("probe: resume (restart cycle)"); }
+                drain(); check_quiescent_obligations(); }
+        }
+        teardown(); }
     else { teardown(); }
 }
 #endif
